@@ -39,6 +39,10 @@ KERNELS = {
     # (results handed over in pieces must still be complete)
     "k9": ["tssd %r9, %r13, %r8", "opsd %r8, %r9"] + _ladder(10),
 }
+# the same kernels 1500 lines into a file (their second-iteration copies are numbered relative
+# to the highest line number, which every worker has to agree on)
+KERNELS["k4hi"] = [""] * 1500 + KERNELS["k4"]
+KERNELS["k6hi"] = [""] * 1500 + KERNELS["k6"]
 
 
 def lcd_obs(g):
@@ -230,6 +234,7 @@ def run(ctx):
             ("k4", 2, 50, 2 if not ctx.thorough else None), ("k5", 3, 50, 2), ("k6", 5, -1, 2),
             ("k7", 2, -1, None), ("k7", 3, -1, None), ("k7", 4, -1, None),
             ("k8", 1, -1, None), ("k8", 2, -1, None), ("k8", 3, -1, 3), ("k8", 5, -1, 2),
+            ("k4hi", 2, -1, None), ("k4hi", 3, -1, 3), ("k6hi", 3, -1, 2),
             ]
     # one schedule each is enough here: what is lost does not depend on the order
     plan = [("k9", 3, -1, 0)] + plan
